@@ -6,6 +6,9 @@ package simnet
 
 import (
 	"bytes"
+	"time"
+
+	"github.com/cosmos/cosmos-sdk/codec"
 	"crypto/sha256"
 	"encoding/binary"
 	"encoding/hex"
@@ -165,6 +168,9 @@ func (w *World) takeFork() {
 		// read its check state, i.e. include whatever the mempool connection did since the commit.)
 		exp := &Node{Idx: 101, Cfg: DefaultRefCfg(), DB: a.DB, AppOpts: appOptsOf(&w.T.Knobs)}
 		exp.Open()
+		if mod, pp := exportPreflight(exp); mod != "" {
+			panic("genesis export of module " + mod + " panics: " + pp)
+		}
 		e, err := exp.App.ExportAppStateAndValidators(false, nil, nil)
 		if err != nil {
 			panic(err)
@@ -216,6 +222,9 @@ func (w *World) takeFork() {
 		var raw2 []byte
 		if p2, _ := safely(func() {
 			b2.App.Commit()
+			if mod, pp := exportPreflight(b2); mod != "" {
+				panic("genesis export of module " + mod + " panics: " + pp)
+			}
 			e, err := b2.App.ExportAppStateAndValidators(false, nil, nil)
 			if err != nil {
 				panic(err)
@@ -383,6 +392,10 @@ func (w *World) importAndCheckCounters() {
 	if p, _ := safely(func() {
 		exp := &Node{Idx: 101, Cfg: DefaultRefCfg(), DB: w.Ref.DB, AppOpts: appOptsOf(&w.T.Knobs)}
 		exp.Open()
+		if mod, pp := exportPreflight(exp); mod != "" {
+			w.Probe("export.preflight-panic")
+			panic("genesis export of module " + mod + " panics: " + pp)
+		}
 		e, err := exp.App.ExportAppStateAndValidators(false, nil, nil)
 		if err != nil {
 			panic(err)
@@ -456,6 +469,10 @@ func (w *World) takeShadow() {
 	if p, _ := safely(func() {
 		exp := &Node{Idx: 101, Cfg: DefaultRefCfg(), DB: w.Ref.DB, AppOpts: appOptsOf(&w.T.Knobs)}
 		exp.Open()
+		if mod, pp := exportPreflight(exp); mod != "" {
+			w.Probe("export.preflight-panic")
+			panic("genesis export of module " + mod + " panics: " + pp)
+		}
 		e, err := exp.App.ExportAppStateAndValidators(false, nil, nil)
 		if err != nil {
 			panic(err)
@@ -521,4 +538,24 @@ func (w *World) followShadow(rec *BlockRec) {
 	if len(wb.Viol) > 0 {
 		sh.dead = true
 	}
+}
+
+// exportPreflight calls the genesis export of the four custom modules one after the other on the
+// node, under recover(). The real export (ExportAppStateAndValidators) runs every module's export in
+// a goroutine of its own, where a panic cannot be recovered and takes the whole process down - as it
+// does `und export`. It returns the module whose export panics ("" if none) and the panic text.
+func exportPreflight(n *Node) (string, string) {
+	ctx := n.App.BaseApp.NewContext(true, MakeHeader(n.App.LastBlockHeight(), time.Unix(GenesisTS, 0), nil))
+	for _, name := range customModules {
+		m, ok := n.App.ModuleManager.Modules[name].(interface {
+			ExportGenesis(sdk.Context, codec.JSONCodec) json.RawMessage
+		})
+		if !ok {
+			continue
+		}
+		if p, _ := safely(func() { m.ExportGenesis(ctx, n.App.AppCodec()) }); p != "" {
+			return name, p
+		}
+	}
+	return "", ""
 }
